@@ -1162,9 +1162,9 @@ RHEADER = ("From Coq Require Import List ZArith.\nImport ListNotations.\n"
            "From TI Require Import model.RArgs model.RArgsVal model.RArgsRel model.RArgsRelTie.\n")
 EXP_VALS = [["i", 0], ["i", 1], ["i", 7], ["b", 0], ["b", 1], ["f", 0], ["f", 1], ["n"], ["e"], ["s", 0], ["s", 1], ["t"]]
 EXP_KINDS = ["plain", "addfirst", "addlast", "rev", "addrev", "other"]
-EXP_ROUTES = ["RenderArgs(R, x)", "+x", "RenderArgs(R) | x", "RenderArgs(R).update(x)", "RenderArgs(parent of R).convert(R).update(x)"]
+EXP_ROUTES = ["RenderArgs(R_c, x{})", "+x{}", "RenderArgs(R_c) | x{}", "RenderArgs(R_c).update(x{})", "RenderArgs(parent of R_c).convert(R_c).update(x{})"]
 VIRT_ROUTES = ["RenderArgs(T, ns)", "RenderArgs(T, None, ns)", "RenderArgs(T, init, ns)", "ns.to_render_args(T)", "RenderArgs(T).update(ns)"]
-VIRT_INIT_ROUTES = ["RenderArgs(T, init)", "RenderArgs(T, init, ns_T)", "init.convert(T)"]
+VIRT_INIT_ROUTES = ["RenderArgs(T, init)", "RenderArgs(T, init, ns_T)"]
 
 
 def gen_edesc(rng, kinds=EXP_KINDS):
@@ -1242,7 +1242,7 @@ def gen_nsvirt(rng, family="ns"):
     virt = [p for p in pairs if py_issub(par, reg, *p) and not anc(par, p[1], p[0])]
     real = [p for p in pairs if anc(par, p[1], p[0])]
     none = [p for p in pairs if not py_issub(par, reg, *p)]
-    nroutes = 3 if family == "init" else 5
+    nroutes = 2 if family == "init" else 5
     probes = []
     off = rng.randrange(nroutes)
     for j, (t, c) in enumerate(virt[:3]):
@@ -1257,7 +1257,7 @@ def gen_nsvirt(rng, family="ns"):
 
 
 def nsvirt_corpus(family="ns"):
-    nr = 3 if family == "init" else 5
+    nr = 2 if family == "init" else 5
     out = [
         # two unrelated classes; the documented public abc API makes one a VIRTUAL subclass of the other
         {"par": [0, 0, 0], "own": [False, True, True], "reg": [[1, 2]],
@@ -1343,7 +1343,7 @@ def describe_rel(case, obs=None):
                 return out
             notes = bad(obs["ns"], "x{}")
             for rn, tab in zip(EXP_ROUTES, obs["sets"]):
-                notes += bad(tab, rn.replace("x", "x{}").replace("R", "R_c"))
+                notes += bad(tab, rn)
             t += ".  Observed: " + ("; ".join(notes[:4]) if notes else f"== tables {obs['ns']['eq']}")
         return t
     fam = case.get("family") == "init"
@@ -2079,12 +2079,9 @@ def run(ctx):
                 ccodes = evaluate(cands, tag="c16s")[0]
                 small = next((cc for cc, cd in zip(cands, ccodes) if cd >= 2), c)
             codes2, _, impl2, _ = evaluate([small], tag="c16r")
-            what = ("equal namespaces / equal sets of render arguments must hash equal and be interchangeable as keys WHATEVER documented "
-                    "public method (as_dict / get_fields / __repr__) the class of an instance overrides: == and hash read the associated class "
-                    "and the field values only" if c["type"] == "nsexp" else
-                    "a namespace / initial set is compatible with a render class iff it is associated with that class or one of its ANCESTORS "
-                    "BY INHERITANCE (abc registration makes issubclass() true but adds no ancestor), and every set for a class holds one "
-                    "namespace per owning class of its hierarchy")
+            what = ("equal namespaces / sets must hash equal whatever public method (as_dict / get_fields / __repr__) a namespace subclass overrides"
+                    if c["type"] == "nsexp" else
+                    "compatibility is decided by the ANCESTORS BY INHERITANCE of the target class (abc registration adds none)")
             what += f" (check code {codes2[0]}): {describe_rel(small, impl2[0])}"
             failures.append({"signature": core.sig(canon(small)), "what": what,
                              "replay": {"case": small, "observed": impl2[0], "code": codes2[0]}})
@@ -2122,7 +2119,11 @@ def run(ctx):
                      "RArgsVal.nstep_op (heap of namespace instances) and RArgsVal.spec_nop (field-by-field rule) == real "
                      "ArgsNamespace constructor / update / RenderArgs.update / attribute reads over the value universe; "
                      "RArgsIntern.run code_proto (small-step interning protocol) and RArgsInternTie.ispec == two real interleaved "
-                     "first-time requests for the default set of a class, one parked at every line event",
+                     "first-time requests for the default set of a class, one parked at every line event; "
+                     "RArgsRel.x_eq / x_hash HashFields / xset_* (==/hash read class + fields only) == real ==/hash/dict-set membership of instances "
+                     "of namespace subclasses overriding as_dict()/get_fields()/__repr__ and of the sets built from them; "
+                     "RArgsRel.u_accept ByHierarchy / u_rule (ancestors by inheritance) and RArgsRel.issubclass == real constructor routes / issubclass "
+                     "on forests with abc registrations",
         "evaluations": len(cases),
         "distinct_nontrivial": len(distinct) + len(ndistinct) + len(sdistinct) + len(idistinct) + len(rdistinct),
         "rule": "corpus + generated programs: forest of 2-8 render classes (depth <= 4, branching <= 3, chains / bushy / random), "
@@ -2157,7 +2158,18 @@ def run(ctx):
                 "request (fresh chain per position), the second request's set inspected inside the window, thread 0 released, one more request "
                 "afterwards; observed per position: class in _interned / object built at the park point, usability and held defaults of the "
                 "three sets, identities, ==/hash.  Non-trivial position: both requests returned usable sets that are different objects (the "
-                "window between allocation and publication); distinct by (scenario, position).",
+                "window between allocation and publication); distinct by (scenario, position).  "
+                "OVERRIDDEN EXPORTS (type nsexp): chains of 1-3 render classes with namespace classes of 1-3 fields (values: ints, bools, integral "
+                "floats, None, Ellipsis, strings, ()), 4-7 instances in groups with == field values (0/False/0.0 mixed) spread over the associated "
+                "class and subclasses overriding as_dict() (entry added first / last, entries reversed, both) or get_fields() + __repr__; observed: "
+                "as_dict().values(), == of every ordered pair, hash, {a: 1}.get(b) / b in {a} / b in [a], and the same tables for the SETS built from "
+                "each instance by RenderArgs(R, x), +x, RenderArgs(R) | x, RenderArgs(R).update(x), RenderArgs(parent).convert(R).update(x).  "
+                "Non-trivial: two EQUAL instances whose classes export different as_dict() values.  VIRTUAL SUBCLASSING (type nsvirt): forests of 2-5 "
+                "render classes (chain / flat / random), >= 2 namespace owners, 1-2 Base.register(Cls) calls (never a cycle), probes (route, target T, "
+                "owner C) with a C namespace through RenderArgs(T, ns), RenderArgs(T, None, ns), RenderArgs(T, init, ns), ns.to_render_args(T), "
+                "RenderArgs(T).update(ns): all five routes for the first registration-only pair, two routes for the next two, 3 real-ancestor pairs, "
+                "2 unrelated pairs; observed: outcome / error, classes the accepted set holds, it holds the given namespace and the base set's "
+                "elsewhere, issubclass(T, C), the default sets of all classes afterwards.  Non-trivial: some probe's classes related by registration only.",
         "samples": [describe(c) for c in (progs[:1] + progs[len(CORPUS):len(CORPUS) + 3])] + [describe(c) for c in cases if c["type"] == "stmt"][:2]
                    + [describe(c) for c in cases if c["type"] == "nsprog"][len(NS_CORPUS):len(NS_CORPUS) + 2],
         "histogram": hist,
@@ -2186,6 +2198,10 @@ def run(ctx):
             "object is unequal to everything, itself included; the operator has no identity shortcut) and hash is modelled by the key "
             "RArgsVal.hkey (numbers by value, NaN-like objects by identity); all values are hashable; keyword names in one call are "
             "distinct (Python guarantees it); field names are positions, a position past the end is an unknown name",
+            "overridden exports: the overrides are field-preserving (every field exported under its name with its value; entries added / reordered); "
+            "no NaN-like field values in that family; abc: issubclass as ABCMeta.__subclasscheck__ computes it from MRO, registry and subclasses "
+            "(no __subclasshook__), registrations made before the first issubclass call; the init_render_args argument with virtual subclassing is "
+            "NOT part of the check (pending_fixes/C16_virtual_subclass_init_render_args.*; VERIF_C16_INIT_FAMILY=1 adds the family)",
         ],
         "trusted": [
             "impl driver: public API only (constructors, update, convert, |, +, to_render_args, iteration, item access, ==, hash, in) "
